@@ -38,6 +38,10 @@ def run(F, rep, tier):
     rep.explanation = EXPLANATION
     rep.undecided = UNDECIDED
     positions.line_rules(F, rep, "LINE")
+    # the line a token starts on is the line counter at that moment: one counter, advanced at every line feed in every token (shared
+    # with C17)
+    import core as _core15
+    _core15.borrow(rep, lambda F_, r_: positions.unit_rules(F_, r_, "UNIT"), lambda o: o["rule"] == "UNIT", F)
     file_span(F, rep)
     span_source(F, rep)
     conflict(F, rep)
